@@ -478,7 +478,7 @@ def run_check(tier, seed):
                        'instantiation (60%), mutated instance (20%), unrelated (20%); 35% pre-seeded with part of the true instantiation, some '
                        'conflicting seeds; higher-order: !x. ?P x, %x y. ?f y x, ?f applied to a matched variable, heuristic ?f t; '
                        'non-trivial = successful match')
-    run.assumptions = ['completeness is validated on generated instances only (no theorem)',
+    run.assumptions = ['completeness: theorem fo_match_complete on the model; the implementation is held to it on generated instances',
                        'higher-order branches are validated per result (reference beta-eta normaliser + finite-model evaluation), not modelled',
                        'targets contain no schematic (type) variables']
     return run.finish()
